@@ -12,14 +12,15 @@
 EXTENDS Integers, Sequences, FiniteSets, TLC, BigNat
 
 (* ---------------- exact arrival tick: certificate T is checked, never computed by division ---------------- *)
+\* arrival a = num/den with num, den BigNat limb sequences (an arrival with nine decimals does not fit 31 bits); T, tps plain integers
+I(n) == BNFromInt(n)
 \* T = ceil(num/den * tps)   <=>   (T-1) * den < num * tps <= T * den      (T >= 0)
 CeilOK(T, num, den, tps) ==
   /\ T >= 0
-  /\ BNLe(BNProd(<<num, tps>>), BNProd(<<T, den>>))
-  /\ (T = 0 \/ BNLt(BNProd(<<T - 1, den>>), BNProd(<<num, tps>>)))
-OnGrid(T, num, den, tps) == BNCmp(BNProd(<<num, tps>>), BNProd(<<T, den>>)) = 0
+  /\ BNLe(BNMul(num, I(tps)), BNMul(I(T), den))
+  /\ (T = 0 \/ BNLt(BNMul(I(T - 1), den), BNMul(num, I(tps))))
+OnGrid(T, num, den, tps) == BNCmp(BNMul(num, I(tps)), BNMul(I(T), den)) = 0
 \* off the grid but within 1e-9 (relative) above the previous boundary T-1:  0 < num*tps - (T-1)*den <= 1e-9 * (T-1)*den
 NearlyPrev(T, num, den, tps) ==
-  T >= 2 /\ BNLe(BNMul(BNProd(<<num, tps>>), BNFromInt(1000000000)), BNMul(BNProd(<<T - 1, den>>), BNFromInt(1000000001)))
-
+  T >= 2 /\ BNLe(BNMul(BNMul(num, I(tps)), I(1000000000)), BNMul(BNMul(I(T - 1), den), I(1000000001)))
 =============================================================================
